@@ -176,7 +176,11 @@ def setup_config(
     l_1 = config["simulation"]["tis_set"].get("lambda_minus_one", False)
     config["simulation"]["tis_set"]["lambda_minus_one"] = l_1
 
-    if quantis and not has_ens_engs:
+    if (
+        quantis
+        and not has_ens_engs
+        and config["simulation"]["ensemble_engines"]
+    ):
         config["simulation"]["ensemble_engines"][0] = ["engine0"]
     accept_all = config["simulation"]["tis_set"].get("accept_all", False)
     config["simulation"]["tis_set"]["accept_all"] = accept_all
@@ -203,6 +207,9 @@ def check_config(config: dict) -> None:
         "lambda_minus_one", False
     )
 
+    if n_ens < 2:
+        raise TOMLConfigError("Define at least 2 interfaces!")
+
     if lambda_minus_one is not False and lambda_minus_one >= intf[0]:
         raise TOMLConfigError(
             "lambda_minus_one interface must be less than the first interface!"
@@ -210,9 +217,6 @@ def check_config(config: dict) -> None:
 
     if quantis and lambda_minus_one:
         raise TOMLConfigError("Cannot run quantis with lambda_minus_one!")
-
-    if n_ens < 2:
-        raise TOMLConfigError("Define at least 2 interfaces!")
 
     if n_workers > n_ens - 1:
         raise TOMLConfigError("Too many workers defined!")
@@ -228,14 +232,22 @@ def check_config(config: dict) -> None:
             f"N_interfaces {n_ens} > N_shooting_moves {n_sh_moves}!"
         )
 
-    if intf_cap and intf_cap > intf[-1]:
+    if intf_cap is not False and intf_cap > intf[-1]:
         raise TOMLConfigError(
             f"Interface_cap {intf_cap} > interface[-1]={intf[-1]}"
         )
-    if intf_cap and intf_cap < intf[0]:
+    if intf_cap is not False and intf_cap < intf[0]:
         raise TOMLConfigError(
-            f"Interface_cap {intf_cap} < interface[-2]={intf[-2]}"
+            f"Interface_cap {intf_cap} < interface[0]={intf[0]}"
         )
+    if intf_cap is not False:
+        # a wire fencing ensemble works on [interface, cap): it needs room
+        for ens_i, move in enumerate(sh_moves[1:n_ens]):
+            if move == "wf" and intf_cap <= intf[ens_i]:
+                raise TOMLConfigError(
+                    f"Interface_cap {intf_cap} <= interface[{ens_i}]="
+                    f"{intf[ens_i]} of a wire fencing ensemble"
+                )
 
     # engine checks
     unique_engines = []
